@@ -16,6 +16,11 @@ package main
 // It finds lost updates on the per-value cell that need two accesses of different goroutines to
 // interleave where the instrumented code has no yield point.
 //
+// Shared entries (DoubleExit): the goroutines work in pairs; one of a pair enters and hands the admitted
+// entry to its partner through an unbuffered channel, then BOTH call Exit on it at once (a handler and a
+// timeout watchdog finishing the same call). An entry releases its unit once, whoever exits it and however
+// often: at quiescence no cell may read anything but zero - in particular never a negative figure.
+//
 // Two kinds of rounds. Steady rounds: the goroutines loop over a few values that stay cached.
 // First-access rounds (Burst > 0): every round takes FRESH values that the rule has never seen (ints
 // counting up from FreshBase, the rule's parameter capacity is far above their number), all goroutines
@@ -48,6 +53,7 @@ type parCase struct {
 	Iters      int    `json:"entries_per_goroutine_and_round"`
 	Rounds     int    `json:"rounds"`
 	BudgetMs   int    `json:"stop_early_after_ms"`
+	DoubleExit bool   `json:"every_entry_exited_by_two_goroutines_at_once,omitempty"`
 	Burst      int    `json:"first_access_rounds"` // > 0: this many rounds on fresh values instead of the steady rounds
 	FreshPer   int    `json:"fresh_values_per_round"`
 	FreshBase  int    `json:"first_fresh_value"`
@@ -59,6 +65,10 @@ func genPar(r *rng.R, i int) parCase {
 	pc.Thr = int64(pc.Goroutines) / r.PickI(1, 2, 4)
 	if i%3 == 2 {
 		pc.Key = 1
+	}
+	if i%4 == 2 {
+		pc.Kind, pc.DoubleExit = "real-thread-concurrent-double-exit", true
+		pc.Goroutines = 8 + 4*r.Intn(3) // pairs: this many enterers, as many partners
 	}
 	if i%2 == 1 { // first-access rounds
 		pc.Kind = "real-thread-first-access-of-fresh-values"
@@ -208,9 +218,32 @@ func runPar(pc parCase, rep *emit.Report) {
 		adm := make([]int64, pc.Goroutines)
 		ref := make([]int64, pc.Goroutines)
 		for g := 0; g < pc.Goroutines; g++ {
+			var hand chan *base.SentinelEntry
+			if pc.DoubleExit { // the partner: exits every entry it is handed, at the same time as the enterer
+				hand = make(chan *base.SentinelEntry)
+				wg.Add(1)
+				go func() {
+					defer wg.Done()
+					defer func() {
+						if p := recover(); p != nil {
+							mu.Lock()
+							panics = append(panics, fmt.Sprint(p))
+							mu.Unlock()
+							for range hand { // keep the enterer going
+							}
+						}
+					}()
+					for e := range hand {
+						e.Exit()
+					}
+				}()
+			}
 			wg.Add(1)
 			go func(g int) {
 				defer wg.Done()
+				if hand != nil {
+					defer close(hand)
+				}
 				defer func() {
 					if p := recover(); p != nil {
 						mu.Lock()
@@ -226,6 +259,9 @@ func runPar(pc parCase, rep *emit.Report) {
 						continue
 					}
 					adm[g]++
+					if hand != nil {
+						hand <- e
+					}
 					e.Exit()
 				}
 			}(g)
@@ -251,7 +287,11 @@ func runPar(pc parCase, rep *emit.Report) {
 			p, ok := tcs[0].BoundMetric().ConcurrencyCounter.Get(kit.GoValue(v))
 			if ok && p != nil && *p != 0 {
 				bad = true
-				fail("counter-not-zero-after-all-entries-exited", fmt.Sprintf(
+				sig := "counter-not-zero-after-all-entries-exited"
+				if *p < 0 {
+					sig = "counter-negative-after-all-entries-exited"
+				}
+				fail(sig, fmt.Sprintf(
 					"round %d (%d goroutines x %d Entry/Exit pairs on values %v, threshold %d): all entries exited, the cell of value %d reads %d",
 					round, pc.Goroutines, pc.Iters, pc.Values, pc.Thr, v, *p))
 			}
